@@ -161,6 +161,38 @@ Theorem C15_date_second_only : forall (H : bytes -> bytes) m d1 d2,
 Proof. exact date_second_only. Qed.
 Print Assumptions C15_date_second_only.
 
+(* A discovery_date without a UTC offset - tzinfo None (DNaive) or a tzinfo whose utcoffset() is None for
+   that date (DOffsetless) - is rejected with ValueError, whatever else the object holds; aware datetimes go
+   through the constructor modelled above.  (No local-zone input exists in the model.) *)
+Theorem C15_naive_rejected : forall m w,
+  mk_emd_in m (DNaive w) = Err ValueError /\ mk_emd_in m (DOffsetless w) = Err ValueError /\
+  forall d, mk_emd_in m (DAware d) = mk_emd (set_date m d).
+Proof. exact naive_rejected. Qed.
+Print Assumptions C15_naive_rejected.
+
+(* Fixed finding (106558f): the constructor as it WAS accepted an offset-less tzinfo and read the wall-clock
+   fields in the machine's local zone - the same call gives different manifests, hence ids, on a machine in
+   UTC and on one at +09:00. *)
+Theorem C15_offsetless_refuted_old : exists m w a b,
+  mk_emd_in_old local_utc m (DOffsetless w) = Ok a /\
+  mk_emd_in_old local_tokyo m (DOffsetless w) = Ok b /\
+  emd_git_object a <> emd_git_object b /\
+  (forall H : bytes -> bytes, emd_id H a = H (emd_git_object a) /\ emd_id H b = H (emd_git_object b)).
+Proof. exact offsetless_refuted_old. Qed.
+Print Assumptions C15_offsetless_refuted_old.
+
+(* Fixed finding (c60369d): the version / visit lines were written with str(); a bool is an int for the
+   validators and True == 1, so ExtID(extid_version=True) and ExtID(extid_version=1) - equal objects - had the
+   manifests "extid_version True" and "extid_version 1": two ids, and the first is not read back by the parser.
+   The present printing is the model's (a Z printed in decimal), which on plain ints is what str() gave. *)
+Theorem C15_bool_version_refuted_old :
+  int_value (IBool true) = x_version ex_extid_v1 /\ int_value (IPlain 1) = x_version ex_extid_v1 /\
+  extid_manifest_old ex_extid_v1 (IBool true) <> extid_manifest_old ex_extid_v1 (IPlain 1) /\
+  parse_extid (extid_manifest_old ex_extid_v1 (IBool true)) = None /\
+  extid_git_object ex_extid_v1 = Ok (extid_manifest_old ex_extid_v1 (IPlain 1)).
+Proof. exact bool_version_refuted_old. Qed.
+Print Assumptions C15_bool_version_refuted_old.
+
 (* Which context fields the seven validators admit for which target kind. *)
 Theorem C15_context_admissible : forall m,
   emd_valid m = true <->
